@@ -175,7 +175,7 @@ def run(rng, tier, res=None, want=("prim", "fit", "semi")):
                 # real metric evaluated on features (incl. asymmetric ones: argument orientation matters)
                 import opfython.math.distance as _dist
                 metric = rng.choice(["euclidean", "log_squared_euclidean", "manhattan", "pearson", "neyman",
-                                     "kullback_leibler", "chi_squared", "canberra", "squared_chord"])
+                                     "kullback_leibler", "chi_squared", "canberra", "squared_chord", "jaccard"])
                 fn = _dist.DISTANCES[metric]
                 dd = rng.choice([1, 2, 3])
                 lattice = rng.random() < 0.5
@@ -192,6 +192,12 @@ def run(rng, tier, res=None, want=("prim", "fit", "semi")):
                     Iq[0] = rng.randrange(n)
                 X = P_[:nLab].copy(); XU = P_[nLab:n].copy(); Q = P_[Iq].copy() if nq else np.zeros((0, dd))
                 rows = [P_[a] for a in range(U)]
+                if cc is None and not lattice and rng.random() < 0.25:
+                    # single-precision datasets (every metric, the non-compiled one included, then returns float32 values)
+                    P_ = P_.astype(np.float32)
+                    X = P_[:nLab].copy(); XU = P_[nLab:n].copy(); Q = P_[Iq].copy() if nq else np.zeros((0, dd), dtype=np.float32)
+                    rows = [P_[a] for a in range(U)]
+                    res.hit("float32_features")
                 if cc is None and lattice and metric in ("euclidean", "manhattan", "log_squared_euclidean") and rng.random() < 0.5:
                     # integer-typed training matrix (grid / count features) with fractional unlabeled samples and queries:
                     # every sample competes from the coordinates the caller gave, whatever the dtype of the other arrays
